@@ -517,9 +517,12 @@ fn read_or_fallback<S: StateRead>(
     mut key: Key,
     num_values: usize,
 ) -> Result<Vec<Vec<Word>>, S::Error> {
-    let mut out = Vec::with_capacity(num_values);
     match post.state.get(&contract_addr) {
         Some(contract_state) => {
+            // Each value needs an `[index, len]` pair in memory, so no more than half the
+            // memory limit can ever be written. Reading one past that still fails the write.
+            let num_values = num_values.min(Memory::SIZE_LIMIT / 2 + 1);
+            let mut out = Vec::with_capacity(num_values);
             for _ in 0..num_values {
                 match contract_state.get(&key) {
                     Some(value) => out.push(value.clone()),
@@ -533,12 +536,10 @@ fn read_or_fallback<S: StateRead>(
                     None => break,
                 }
             }
+            Ok(out)
         }
-        None => {
-            out = state.key_range(contract_addr, key.clone(), num_values)?;
-        }
+        None => state.key_range(contract_addr, key.clone(), num_values),
     }
-    Ok(out)
 }
 
 /// Get the next key in the range of keys.
